@@ -25,7 +25,9 @@ func rsecs(rng *rand.Rand) time.Duration {
 	return time.Duration(pick(rng, 0, 1, 3600, 86400, 0x7fffffff, 0xffffffff, 0xfffffffe, rng.Intn(1<<31))) * time.Second
 }
 func rip6(rng *rand.Rand) net.IP {
-	switch rng.Intn(5) {
+	switch rng.Intn(6) {
+	case 5:
+		return net.IPv4(192, 168, byte(rng.Intn(256)), 1).To4() // 4-byte form of an address: goes on the wire v4-mapped
 	case 0:
 		return net.IPv6unspecified
 	case 1:
